@@ -43,7 +43,7 @@ func Main(args []string) int {
 
 	var scs []Scenario
 	if *scen == "" {
-		scs = Scenarios()
+		scs = append(Scenarios(), moreScenarios()...)
 	} else {
 		for _, name := range strings.Split(*scen, ",") {
 			s, ok := ScenarioByName(name)
@@ -110,6 +110,10 @@ func ProfileOpts(p string) RandomOpts {
 		return RandomOpts{EnvProb: 0.3, EnvBudget: 6, AllowReown: true, AllowCRDelete: true, AllowArchive: true, AllowOrphan: true, Crashes: 1, Settle: true}
 	case "pause": // C09
 		return RandomOpts{EnvProb: 0.4, EnvBudget: 8, AllowPause: true, AllowReown: true, Settle: true}
+	case "handover": // C02: revisions paused / archived / deleted mid-handover, no third-party ownership edits
+		return RandomOpts{EnvProb: 0.3, EnvBudget: 5, AllowPause: true, AllowArchive: true, AllowCRDelete: true, Settle: true}
+	case "race": // C05: third party acts between PKO's read and its delete
+		return RandomOpts{EnvProb: 0.25, EnvBudget: 8, AllowReown: true, AllowCRDelete: true, AllowArchive: true, AllowOrphan: true, Race: true, Settle: true}
 	case "chaos": // C10
 		return RandomOpts{EnvProb: 0.3, EnvBudget: 4, Faults: 3, Crashes: 2, Settle: true}
 	case "all":
